@@ -726,17 +726,17 @@ func checkMultiPolys(c multiPolys) ev.Outcome {
 func init() {
 	ev.Define("lattice_pairs", ev.Options{
 		Rule:  "two lattice rectangles on one face grid (levels 1..6; random, nested sharing sides, adjacent sharing a side, touching at a corner, equal), each optionally complemented, boundaries with a vertex at every grid point (4..256 vertices); truth = set algebra on the grid-cell atoms + the atom 'rest of the sphere'; Loop.Contains/Intersects (both orders) and single-loop Polygon. Non-trivial: both loops > 32 vertices and both indexes ≥ 2 cells.",
-		Quick: 36000, Thorough: 1000000}, genLatticePair, checkLatticePair)
+		Quick: 36000, Thorough: 500000}, genLatticePair, checkLatticePair)
 	ev.Define("loop_laws", ev.Options{
 		Rule:  "arbitrary valid loop pairs (independent, about nearly the same centre, sharing a vertex, identical boundary incl. rotated start; 1/4 complemented; 3..200 vertices, thorough 2000): Intersects symmetric; self containment/intersection; A∩B ⇔ ¬(A'⊇B); A⊇B ⇔ B'⊇A' with complements as fresh reversed loops and via Invert(); single-loop polygons; one-directional point refutation with vertices/edge midpoints/known interior points. Non-trivial: both > 32 vertices and multi-cell indexes.",
-		Quick: 18000, Thorough: 500000}, genLoopPair, checkLaws)
+		Quick: 18000, Thorough: 200000}, genLoopPair, checkLaws)
 	ev.Define("disc_pairs", ev.Options{
 		Rule:  "two rings of a family of strictly nested star rings about one centre (or one ring and a far-away loop about the antipode), each optionally complemented, one with rotated start vertex; truth = band atoms from the construction. Non-trivial: both > 32 vertices and multi-cell indexes (the path the unit tests never reach).",
-		Quick: 36000, Thorough: 1000000}, genDiscPair, checkDiscPair)
+		Quick: 36000, Thorough: 400000}, genDiscPair, checkDiscPair)
 	ev.Define("polygon_multi", ev.Options{
 		Rule:  "polygons assembled from shuffled subsets of 1..3 families of strictly nested rings about distinct cube-face centres (several top-level shells, holes, islands), each polygon optionally complemented with Polygon.Invert(); truth = set algebra on band atoms + the rest of the sphere; Contains/Intersects (symmetric), the complement laws with Invert()ed copies, double inversion, ContainsPoint at the family centres. Non-trivial: A has ≥ 2 top-level shells or a polygon is complemented.",
-		Quick: 24000, Thorough: 600000}, genMultiPolys, checkMultiPolys)
+		Quick: 24000, Thorough: 300000}, genMultiPolys, checkMultiPolys)
 	ev.Define("polygon_rings", ev.Options{
 		Rule:  "polygons assembled by PolygonFromLoops from shuffled subsets of up to 5 (1 in 8: 15) strictly nested rings: IsHole ⇔ odd number of enclosing input loops, Parent() = next enclosing selected ring; Polygon.Contains/Intersects between two such polygons = set algebra on band atoms (shared rings are bit-identical boundaries). Non-trivial: A has ≥ 2 loops and > 32 vertices.",
-		Quick: 24000, Thorough: 750000}, genRingPolys, checkRingPolys)
+		Quick: 24000, Thorough: 300000}, genRingPolys, checkRingPolys)
 }
